@@ -1392,9 +1392,12 @@ def up_ghost_verify(s):
         after = calls[i + 1][3] if i + 1 < len(calls) else s.old_handle.tree()
         gg = dict(c=call[2], after=after, sub=None, before=call[3])
         if isinstance(v, (ItemsMap, SymDict)):
-            if not subs:
-                return None
-            rec = subs.pop(0)
+            if subs:
+                rec = subs.pop(0)
+            else:
+                # the section was NOT merged through a recursive update: state the section clauses against a blank ghost (they then
+                # fail under their own names unless the body did the equivalent by other means)
+                rec = dict(gs=fresh_ghost(s.ctx, v.items()) if isinstance(v, ItemsMap) else None, dt=EMPTY, dkey=None)
             gg["sub"], gg["dt"], gg["dkey"] = rec["gs"], rec["dt"], rec["dkey"]
         gs.append(gg)
     return gs
@@ -1412,7 +1415,11 @@ def up_ensures(s):
         return s._assumed
     gs = up_ghost_verify(s)
     if gs is None:
-        return [("ghost:canonical-key-per-item", z3.BoolVal(False))]
+        # the body did not compute one canonical name per item: the clauses that need no ghost are still stated under their own names
+        tag = f"[{s.case}{',defaults-given' if s.defaults is not None else ''}]"
+        return [(tag + "returns-the-updated-dict", z3.BoolVal(s.result is s.old_handle)),
+                (tag + "frame:no-sub-mapping-of-new-is-stored-by-reference(old-and-new-share-no-dict)", z3.BoolVal(len(s.ctx.ghost.get("aliased", [])) == s.old.n_alias)),
+                ("ghost:canonical-key-per-item", z3.BoolVal(False))]
     t, t2 = s.old.tree, s.old_handle.tree()
     out = [("returns-the-updated-dict", z3.BoolVal(s.result is s.old_handle))] + ([("first-item-starts-from-the-old-state", gs[0]["before"] == t)] if gs else [])
     out.append(("frame:no-sub-mapping-of-new-is-stored-by-reference(old-and-new-share-no-dict)", z3.BoolVal(len(s.ctx.ghost.get("aliased", [])) == s.old.n_alias)))
@@ -1662,17 +1669,17 @@ C_UPDDEF3 = ud_contract(("device",), (2,))
 COLLECT = resolve(f"{CFG}:collect")
 
 
-def rf_setup(ctx):
+def rf_setup(ctx, ns=(0, 1, 2, 3), enum=None):
     init_ctx(ctx)
     override_globals(config=global_config(ctx), cp=M.CupyStub(), NUM_DEVICES=M.env_of(ctx).num)
-    n = 3
-    for cand in (0, 1, 2):
+    n = ns[-1]
+    for cand in ns[:-1]:
         if ctx.branch(ctx.fresh(f"defaults_len_{cand}", "bool").t):
             n = cand
             break
     defaults = [SymDict.fresh(ctx, f"defaults{i}") for i in range(n)]
     enumerated = None
-    if n == 1 and ctx.branch(ctx.fresh("enumerated_default_section", "bool").t):
+    if enum:
         # one default {k1: {k2: v}} written out, so that the post-state can be stated entry by entry (and absent key by absent key)
         k1, k2, v = fresh_nd_key(ctx, "k1"), fresh_nd_key(ctx, "k2"), Leaf(ctx.fresh("v2", "int"))
         enumerated = (k1, k2, v)
@@ -1721,11 +1728,19 @@ def rf_ensures(s):
     return [(f"[{s.case}]{a}", b) for a, b in out]
 
 
-C_REFRESH = Contract(f"{CFG}:refresh", setup=unpruned(rf_setup), ensures=rf_ensures, snapshot=rf_snapshot,
-                     note="0..3 opaque defaults; collect() is a parameter (empty, or an arbitrary user mapping); update is used through its contract")
+def rf_contract(ns, enum=None):
+    return Contract(f"{CFG}:refresh", setup=unpruned(lambda ctx: rf_setup(ctx, ns, enum)), ensures=rf_ensures, snapshot=rf_snapshot,
+                    note="pre-state: an ARBITRARY store; defaults: " + ("one enumerated default {k1: {k2: v}} (post-state stated entry by entry)" if enum else f"{ns} opaque defaults") +
+                         "; collect() is a parameter (empty, or an arbitrary user mapping); update is used through its contract")
+
+
+# (several contract objects so that they are discharged in parallel)
+C_REFRESH = rf_contract((0, 1))
+C_REFRESH2 = rf_contract((2, 3))
+C_REFRESH3 = rf_contract((1,), enum=True)
 
 CONTRACTS = [C_CANON, C_ASSIGN, C_ASSIGN2, C_ASSIGN3, C_ASSIGN4, C_ASSIGN5, C_ASSIGN6, C_GET, C_VALIDATE, C_VALIDATE2, C_CHECK, C_CHECK2, C_INIT1, C_INIT2, C_INIT3, C_INIT4, C_ENTER, C_EXIT, C_SETDEV, C_GETDEV, C_DEVICE,
-             C_UPD_NEW, C_UPD_NEW2, C_UPD_OLD, C_UPD_OLD2, C_UPD_ND, C_UPD_ND2, C_MERGE, C_UPDDEF, C_UPDDEF2, C_UPDDEF3, C_REFRESH]
+             C_UPD_NEW, C_UPD_NEW2, C_UPD_OLD, C_UPD_OLD2, C_UPD_ND, C_UPD_ND2, C_MERGE, C_UPDDEF, C_UPDDEF2, C_UPDDEF3, C_REFRESH, C_REFRESH2, C_REFRESH3]
 
 
 
@@ -2469,7 +2484,7 @@ for _c, _rt, _fam, _conc in (
         (C_UPD_NEW, rt_update, fam_update, None), (C_UPD_OLD, rt_update, fam_update, None), (C_UPD_ND, rt_update, fam_update, None),
         (C_UPD_NEW2, rt_update, fam_update, None), (C_UPD_OLD2, rt_update, fam_update, None), (C_UPD_ND2, rt_update, fam_update, None),
         (C_UPDDEF2, rt_device, fam_device_via("update_defaults"), conc_device("dev", "update_defaults")),
-        (C_MERGE, rt_update, fam_update, None), (C_UPDDEF, rt_history, fam_history_small, None), (C_REFRESH, rt_history, fam_refresh, None),
+        (C_MERGE, rt_update, fam_update, None), (C_UPDDEF, rt_history, fam_history_small, None), (C_REFRESH, rt_history, fam_refresh, None), (C_REFRESH2, rt_history, fam_refresh, None), (C_REFRESH3, rt_history, fam_refresh, None),
         (C_ENTER, rt_with, fam_with, None), (C_EXIT, rt_with, fam_with, None)):
     _c.rt, _c.rt_family, _c.concretize = _rt, _fam, _conc
 
